@@ -56,12 +56,12 @@ def oracle(ctx, c):
 # ------------------------------------------------------------------------------------------------
 # writer level: M-WRITER vs the three real shard writers, call by call
 # ------------------------------------------------------------------------------------------------
-W_ATTRS = {"fb": [("a", "int32", (2,)), ("b", "float32", (3,)), ("c", "uint8", ())],
+W_ATTRS = {"fb": [("a", "int32", (2,)), ("b", "float32", (3,)), ("c", "uint8", ()), ("d", "float32", ())],
            "npz": [("a", "int32", (2,)), ("v", "bytes", ()), ("b", "float32", (3,))],
            "tfrec": [("a", "int32", (2,)), ("v", "bytes", ()), ("b", "float32", (3,))]}
 # a second structure with the *same attribute names* declared with the other kind of dtype: one process writes datasets of both
 # structures, one after the other (nothing learnt about an attribute name in one dataset may be applied to the other)
-W_ATTRS2 = {"fb": [("a", "float32", (2,)), ("b", "int32", (3,)), ("c", "uint8", ())],
+W_ATTRS2 = {"fb": [("a", "float32", (2,)), ("b", "int32", (3,)), ("c", "uint8", ()), ("d", "float16", ())],
             "npz": [("a", "float32", (2,)), ("v", "bytes", ()), ("b", "int32", (3,))],
             "tfrec": [("a", "float32", (2,)), ("v", "bytes", ()), ("b", "int32", (3,))]}
 
@@ -77,8 +77,14 @@ def _value(np, fmt, dtype, shape, kind, payload):
     shp = shape if shape_ok else tuple(shape) + (2,)
     if enc_bad:
         # what the format's own encoder refuses: a float64 / text value for an integer attribute, text for a float attribute
+        # (scalar attributes get 0-d arrays: the refusal concerns the dtype of the value, whatever its rank and whatever number it holds)
         if np.dtype(dtype).kind in "iu":
-            v = np.full(shp, payload + 0.5, dtype=np.float64 if payload % 2 == 0 else np.float32)     # (a float32 value is what a float32 attribute of the same name takes)
+            if payload % 3 == 2 and fmt == "fb":
+                v = np.full(shp, payload, dtype=np.int64)                                              # a wider integer type (the number itself would fit)
+            else:
+                v = np.full(shp, payload + 0.5, dtype=np.float64 if payload % 2 == 0 else np.float32)     # (a float32 value is what a float32 attribute of the same name takes)
+        elif fmt == "fb" and payload % 2 and np.dtype(dtype).itemsize < 8:
+            v = np.full(shp, payload + 0.1, dtype=np.float64)                                          # a wider float type: float64 -> float32 / float16 is not a safe cast
         else:
             v = np.full(shp, "x" + str(payload), dtype=object) if fmt == "tfrec" else np.full(shp, payload, dtype=np.complex128)
     else:
